@@ -18,7 +18,8 @@ RULE = (
     "setups x 9 transactions x all fault positions x 6 continuations (rollback; rollback+reads; use "
     "while the rollback is pending; re-run of the same changes + flush + commit, compared with a "
     "failure-free reference run executed on the implementation), the same inside a savepoint with "
-    "handle.rollback / Session.rollback / handle.commit continuations, and random C33 histories in which "
+    "handle.rollback / Session.rollback / handle.commit continuations, after a savepoint that was released "
+    "before the failure, and random C33 histories in which "
     "flushes are replaced by faulty ones. Observed after EVERY operation: as C33 (exception class, every "
     "object's lifecycle state/identity key/loaded values/modified/deleted/expired, transaction flags, "
     "rows seen by a second connection, rows seen by the session's own connection). "
@@ -158,6 +159,9 @@ def gen_cases(rng, tier):
                                        ("sp-rollback", [[ROLLBACK], [LOAD, 0]]),
                                        ("sp-hcommit", [[TCOMMIT, 0], [TROLLBACK, 0], [FLUSH], [COMMIT]])):
                         add(eoc, setup + [[NESTED]] + txn + [ft] + tail, "fault-" + name)
+                    # the savepoint is released, the failure comes later in the enclosing transaction
+                    add(eoc, setup + [[NESTED]] + txn + [[FLUSH], [TCOMMIT, 0], [NEW, n, 8, 8], ft, [ROLLBACK]]
+                        + [[LOAD, i] for i in range(min(n, 3))], "fault-sp-released")
                     if len(txn) >= 2:
                         add(eoc, setup + txn[:1] + [[NESTED]] + txn[1:] + [ft, [TROLLBACK, 0]] + _redo(txn[1:]) + [[FLUSH], [COMMIT]],
                             "fault-sp-rerun")
@@ -405,10 +409,8 @@ def oracle(c, obs):
 
 _FINDING_OF_GUARD = {
     "g1": "C32-inherits-C33-outer-savepoint-rollback",
-    "g2": "C32-inherits-C33-key-switch-merge",
-    "g3": "C32-inherits-C33-stale-deleted-flag",
     "g5": "C32-inherits-C33-delete-of-deleted",
-    "g6": "C32-inherits-C33-close-keeps-deleted",
+    "g6": "C32-inherits-C33-deleted-stays-attached",
 }
 
 
@@ -453,8 +455,9 @@ LEVEL_NOTE = (
     "rollback are states of guarded histories again (same objects and handles, clean, no transaction)'; that the "
     "re-run writes the same rows as a failure-free run is checked on the implementation against reference runs "
     "(oracle), not proved. The claim 'objects added in the rolled-back transaction are transient again' is "
-    "REFUTED (finding C32-expunged-object-with-key-switch-left-detached). The histories are the guarded ones of "
-    "C33 (guard clauses g1 g2 g3 g5 g6 = the C33 findings, and no object operation while a failed flush waits "
+    "checked by the oracle only (its former counterexample, finding C32-expunged-object-with-key-switch-left-"
+    "detached, is repaired in 6d10bc4 and kept as a positive Example). The histories are the guarded ones of "
+    "C33 (guard clauses g1 g5 g6 = the open C33 findings, and no object operation while a failed flush waits "
     "for rollback). Crash oracle: the driver failure is reported AFTER the statement took effect and positions "
     "count INSERT/UPDATE/DELETE only; a failure inside a savepoint while later statements of the flush still "
     "have to SELECT an expired primary key is outside the model (batch parameters are collected first). Not "
